@@ -59,8 +59,19 @@ def run(ctx):
             cls = S.BY_CHAIN[tuple(init[0])]
             runs = {}
             inh = (i % 3 == 1)      # tasks started while an edit block is suspended inherit that block's contextvars
-            runs["memory"] = K.run_real(lambda: InMemoryStateStore(cls()), init, ops, sched, inherit=inh)
-            runs["sqlite"] = K.run_real(lambda: env.fresh_sql(cls)[0], init, ops, sched, inherit=inh)
+            try:
+                runs["memory"] = K.run_real(lambda: InMemoryStateStore(cls()), init, ops, sched, inherit=inh)
+                runs["sqlite"] = K.run_real(lambda: env.fresh_sql(cls)[0], init, ops, sched, inherit=inh)
+            except K.NeverFinished as ex:
+                # under the deterministic loop every operation of every schedule finishes on the unchanged tree
+                ctx.violation("C20: operations %s of a schedule never finish on the %s store (a deadlock, or store work handed to "
+                              "a thread, outside the store lock's reach and outside what the schedule driver can order): the "
+                              "atomicity statement cannot be evaluated on this store any more"
+                              % (ex.args[0], "sqlite" if "memory" in runs else "memory"),
+                              dict(kind="implementation-monitor", suite="statesched", initial=S.jsonable(init),
+                                   ops=[repr(o)[:200] for o in ops], schedule=list(sched), pending=ex.args[0],
+                                   theorem=THEOREMS), found_input=False)
+                break
             for store in ("memory", "sqlite"):
                 log, fin, outcome, fifo = runs[store]
                 exprs.append(K.case_expr(store, locks[store], init, ops, log, fin))
